@@ -5,7 +5,7 @@ import ast
 
 from optilint.expr import Poly
 from .C20_interp import (Int, Scalar, Arr, Str, Key, EnumVal, UserClass, NTInst, Instance, ListV, DictV, DictView, RangeV, SliceV, Func, Bound,
-                         Builtin, Method, ModuleV, FileObj, Opaque, Poison, Partial, Env, Group, MISSING, NODEFAULT, Undecidable, ProgramError,
+                         Builtin, Method, ModuleV, LibModule, FileObj, Opaque, Poison, Partial, Env, Group, MISSING, NODEFAULT, Undecidable, ProgramError,
                          ReturnSig, BreakSig, ContinueSig, PC, PS, ZERO, ONE, psubst, pconst, const_of, new_oid)
 from . import C20_text as T
 from . import C20_np as N
@@ -28,8 +28,8 @@ class OpsMixin:
     # ------------------------------------------------------------------ names
     def lookup(self, name, env, node):
         v = env.lookup(name)
-        if v is MISSING:
-            v = self.globals.lookup(name)
+        if v is MISSING and not self.in_lib_module(env):
+            v = self.globals.lookup(name)       # (code of a private helper module does not see the globals of the module under analysis)
         if v is MISSING:
             if name in BUILTINS:
                 return Builtin(name)
@@ -751,7 +751,20 @@ class OpsMixin:
         if isinstance(v, ModuleV):
             if v.name == "numpy":
                 return self.np_attr(name)
+            sub = self.lib_module(v.name + "." + name)      # `import optimism._helpers` ... `optimism._helpers.f(..)`
+            if sub is not None:
+                return sub
             return self.imported(v.name, name)
+        if isinstance(v, LibModule):
+            r = v.env.vars.get(name, MISSING)
+            if r is MISSING:
+                sub = self.lib_module(v.name + "." + name)
+                if sub is not None:
+                    return sub
+                raise Undecidable(f"attribute {name} of the module {v.name} is not found by the analysis", node)
+            if isinstance(r, Poison):
+                raise Undecidable(r.why, node)
+            return r
         if isinstance(v, Builtin):
             if v.name == "chain" and name == "from_iterable":
                 return Builtin("chain.from_iterable")
